@@ -4,8 +4,10 @@ package main
 //
 // GetSystemReqs stores Threads = float64(centi)/100 and Enqueue re-derives
 // int64(math.Ceil(res.Threads*100)); for some centi (7, 14, 28, 55, … — about 4.5 % of 1..6399)
-// the product is a hair above the integer and the real Acquire amount is centi+1, which the
-// integer model (acquireAmounts: centi) does not say.  The bound is unaffected: the cap is a
+// the product is a hair above the integer and the ceil gives centi+1, which the integer model
+// (acquireAmounts: centi) does not say; Enqueue applies GetSystemReqs once more to the result of
+// Node.getJobReqs before its own ceil, so there are two such round trips: the real Acquire amount
+// is centi, centi+1 or centi+2 (observed: 9.205 threads -> 921 -> 922 -> 923).  The bound is unaffected: the cap is a
 // multiple of 100, and every multiple of 100 survives the round trip, so centi+1 <= cap.
 // This stream runs real jobs with PRNG centi values alone through the real Enqueue, reads the
 // reservation off the core semaphore and COUNTS centi vs centi+1; anything else — below centi,
@@ -88,12 +90,16 @@ func runC12Float(c *Ctx) {
 			r.hist("enqueue_cores_amount_equals_centi")
 		case got == centi+1 && got <= limit:
 			r.hist("enqueue_cores_amount_is_centi_plus_1_(float_round_trip)")
+		case got == centi+2 && got <= limit:
+			// two round trips: Enqueue applies GetSystemReqs once more to the result (ceil of
+			// float64(centi)/100*100 -> centi+1, stored as (centi+1)/100) and then takes the ceil again
+			r.hist("enqueue_cores_amount_is_centi_plus_2_(two_float_round_trips)")
 		default:
 			r.violate(Violation{Kind: "property", Key: "C12:local:cores-amount-off",
-				What: fmt.Sprintf("a job asking for %g threads: GetSystemReqs returned %g threads (= %d centi-cores), Enqueue reserved %d on the core semaphore (limit %d): neither centi nor centi+1, or above the limit",
+				What: fmt.Sprintf("a job asking for %g threads: GetSystemReqs returned %g threads (= %d centi-cores), Enqueue reserved %d on the core semaphore (limit %d): not within centi .. centi+2, or above the limit",
 					jobDef.Threads, res.Threads, centi, got, limit),
 				Input:  map[string]interface{}{"threads_requested": jobDef.Threads, "localcores": g.MaxCores, "GetSystemReqs_threads": res.Threads},
-				Expect: "centi <= reserved <= centi+1 <= limit (the integer model's amount, or one more from ceil(float64(centi)/100*100))"})
+				Expect: "centi <= reserved <= centi+2 and reserved <= limit (the integer model's amount, plus at most one per float round trip ceil(float64(centi)/100*100); GetSystemReqs is applied again inside Enqueue)"})
 			return
 		}
 	}
